@@ -374,6 +374,34 @@ def run(ctx: Ctx) -> int:
         ctx.oblige("C06.e", okv, s, f"init_args stored come from {how}" if okv else "init_args are stored without passing through the class's own parser (unknown / ill-typed init_args would be accepted)", fn=act)
     ctx.floor("C06.e", n_e, 3)
 
+    # a class spec given without class_path keeps ALL its keys when the class_path is filled in from the earlier
+    # value: a foreign sibling of init_args (`initargs`, `init_arg`, ...) must reach the check that rejects it
+    ssn = ctx.func("_typehints:subclass_spec_as_namespace")
+    vparam = ssn.args.args[0].arg
+    spec_ifs = [n_ for n_ in walk_local(ssn) if isinstance(n_, ast.If) and "init_args" in ast.unparse(n_.test) and "dict_kwargs" in ast.unparse(n_.test) and isinstance(n_.test, ast.BoolOp) and isinstance(n_.test.op, ast.Or)]
+    ctx.need(len(spec_ifs) == 1, "subclass_spec_as_namespace: `if 'init_args' in val or 'dict_kwargs' in val`")
+    rebinds = [s for b in spec_ifs[0].body for s in ast.walk(b) if isinstance(s, ast.Assign) and any(isinstance(t, ast.Name) and t.id == vparam for t in s.targets)]
+    ok = True
+    why = ""
+    for s in rebinds:
+        v = s.value
+        whole = (isinstance(v, ast.Call) and call_leaf(v) in ("Namespace", "dict", "clone", "copy", "deepcopy") and ((v.args and isinstance(v.args[0], ast.Name) and v.args[0].id == vparam and not v.keywords) or (isinstance(v.func, ast.Attribute) and root_name(v.func) == vparam and not v.args))) or (
+            isinstance(v, ast.Dict) and any(k is None and isinstance(x, ast.Name) and x.id == vparam for k, x in zip(v.keys, v.values))
+        )
+        if not whole:
+            ok = False
+            why = src(s, 70)
+    stores = [s for b in spec_ifs[0].body for s in ast.walk(b) if isinstance(s, ast.Assign) and any(isinstance(t, ast.Subscript) and root_name(t.value) == vparam and const_str(t.slice) == "class_path" for t in s.targets)]
+    ok = ok and (bool(stores) or bool(rebinds))
+    ctx.oblige(
+        "C06.a",
+        ok,
+        rebinds[0] if rebinds else (stores[0] if stores else spec_ifs[0]),
+        "a spec that already has init_args / dict_kwargs gets the inherited class_path added and keeps every other key it was given" if ok else f"the spec is rebuilt from selected keys ({why}): a foreign key next to init_args (a misspelt `initargs`, an unknown option) is dropped silently instead of being rejected",
+        fn=ssn,
+        construct="spec keeps all keys",
+    )
+
     # ---------------- C06.f ---------------------------------------------------
     # dotted-key prefix tests of the two permitted skips: `a.startswith(b)` with a computed b decides "a is nested under b" only when b ends
     # with the separator; without it `model.lay` passes for `model.layers`, `optim` for `optimizer.lr`
